@@ -36,7 +36,4 @@ Definition width_vs_domain_ok (c : pfcfg) : bool :=
 Definition judge_fe48 (x : fecfg * Z) : Z :=
   let '(c, maxconc) := x in
   if negb (maxconc <=? Z.max 1 (wrap_s 32 (fe_maxThreads c))) then 20
-  else match fe_plan c with
-       | Some p => if maxconc <=? Z.of_nat (length p) then 0 else 10
-       | None => 10
-       end.
+  else if maxconc <=? Z.of_nat (length (fe_plan c)) then 0 else 10.
